@@ -27,13 +27,16 @@ VECTORS = [
     {"-ma": 0, "-pt": 1},
     {"-d": 0, "-ms": 1, "-bs": 1},
     {"-p": 8, "-diff": 0},
+    {"-ss": 1},
+    {"-ss": 2, "-sj": 0.5, "-d": 1000},
 ]
 
 
 def degenerate_input(rng: random.Random, flavour: int) -> Dict:
     """ordinary queries (ids < 1000) + degenerate molecules (ids >= 1000)"""
-    base = pipecases.make_input(rng, n_refs=rng.choice([1, 2]), n_qry=4,
-                                kinds=["noisy", "exact", "mirror", "indel"], ref_labels=(60, 120))
+    base = pipecases.make_input(rng, n_refs=rng.choice([1, 2]), n_qry=6,
+                                kinds=["smallindel", "noisy", "smallindel", "mirror", "indel", "smallindel"],
+                                ref_labels=(60, 120))
     refs, qrys = base["refs"], base["qrys"]
     big = max(r["len"] for r in refs)
     deg: List[Dict] = []
@@ -71,7 +74,7 @@ def one_input(args):
     seed, idx, workroot = args
     rng = random.Random(seed * 65537 + idx)
     inp = degenerate_input(rng, idx)
-    extra = VECTORS[(idx // 6) % len(VECTORS)]
+    extra = VECTORS[(idx // 2) % len(VECTORS)]
     wd = os.path.join(workroot, f"c07-{os.getpid()}-{idx}")
     os.makedirs(wd, exist_ok=True)
     out = {"idx": idx, "extra": extra, "runs": {}, "degenerate": [q["id"] for q in inp["qrys"] if q["id"] >= 1000],
@@ -131,7 +134,7 @@ def run(ctx: Ctx):
         raise tlc.MachineryError("MC_Worker_d2: the D2 deviation is no longer reachable in the model")
     ctx.notes["named_deviation_D2"] = "EmptySelectionAborts=TRUE violates Inv_C07 in the model (no peak selected)"
     ctx.exhaustive = True
-    n = 18 if quick else 180
+    n = 32 if quick else 320
     jobs = [(ctx.seed * 13 + 7, i, ctx.workdir) for i in range(n)]
     with mp.get_context("fork").Pool(min(14, n)) as pool:
         results = pool.map(one_input, jobs)
